@@ -9,6 +9,7 @@
 //   CFG ...                                           configurable_t histories (several objects, clones)
 //   DEFAULT <factory> <idhex> <namehex> <st>           every registered parameter of every factory object
 //   FACT <factory> <idhex> params=<n> cls=<hex>         per-object summary of the factory enumeration; cls = demangled dynamic type
+//   CLONED <factory> <idhex> :: <tree> :: <tree>        (stage CLONETAB) a modified object and its clone; tree = <clshex> <cfg> [## <memberhex> <clshex> <cfg>]*
 //   CONST F|I <c++ expression> <value>                 the symbolic constants used by register_parameter calls, as compiled
 //                                                     (checked against the table of tools/checks/c19_params.py)
 //   FAIL <what> :: <context>                           direct property oracle violated (independent of the model)
@@ -1381,6 +1382,28 @@ configurable_t* as_config_mut(tobject& o)
     else return nullptr;
 }
 
+// third extension (stage CLONETAB): an object as the clone model sees it -- dynamic class, parameter state, owned components
+// (the two line-search objects of a solver): `<clshex> <cfg> [## <memberhex> <clshex> <cfg>]*`
+long g_cloned_lines = 0;
+template <class tobject>
+string tree_of(const tobject& o)
+{
+    const auto* c = as_config(o);
+    string      s = hexs(demangled(typeid(o))) + " " + (c != nullptr ? cfg_state(*c) : string("."));
+    if constexpr (std::is_base_of_v<solver_t, tobject>)
+    {
+        s += " ## " + hexs("m_lsearch0") + " " + hexs(demangled(typeid(o.lsearch0()))) + " " + cfg_state(o.lsearch0());
+        s += " ## " + hexs("m_lsearchk") + " " + hexs(demangled(typeid(o.lsearchk()))) + " " + cfg_state(o.lsearchk());
+    }
+    return s;
+}
+template <class tobject>
+void cloned_line(const char* fname, const string& id, const tobject& orig, const tobject& clone)
+{
+    ++g_cloned_lines;
+    std::printf("CLONED %s %s :: %s :: %s\n", fname, hexs(id).c_str(), tree_of(orig).c_str(), tree_of(clone).c_str());
+}
+
 template <class tobject, class tbehave>
 void factory(const char* fname, factory_t<tobject>& all, const tbehave& behave)
 {
@@ -1479,11 +1502,13 @@ void factory(const char* fname, factory_t<tobject>& all, const tbehave& behave)
             const auto cl2 = cl->clone();
             if (cfg_state(*as_config(*cl2)) != s1) fail("clone of a modified object does not carry the modified parameters", ctx);
             if (behave(*cl2) != behave(*cl)) fail("clone of a modified object behaves differently", ctx);
+            cloned_line(fname, id, *cl, *cl2);
         }
         else
         {
             const auto b0 = behave(*obj), b1 = behave(*cl);
             if (b0 != b1) fail("clone behaves differently", ctx + " :: " + b0 + " vs " + b1);
+            cloned_line(fname, id, *obj, *cl);
         }
         std::printf("FACT %s %s params=%zu cls=%s\n", fname, hexs(id).c_str(), nparams, hexs(demangled(typeid(*obj))).c_str());
     }
@@ -1563,6 +1588,7 @@ void solver_lsearch_clones()
                 solver->lsearchk(*ok);
                 const auto cl = solver->clone();
                 ++g_lsearch_clone_checks;
+                cloned_line("solver", sid, *solver, *cl);
                 if (behave_params(*cl) + behave_lsearch(*cl) != behave_params(*solver) + behave_lsearch(*solver))
                     fail("clone of a solver with configured line-search components is not configuration-equal", ctx + " :: " + behave_lsearch(*solver) + " vs " + behave_lsearch(*cl));
                 if (fproto && (sid == "gd" || sid == "lbfgs" || sid == "bfgs" || sid == "cgd-pr"))
@@ -1611,7 +1637,7 @@ int main(int argc, char** argv)
     constants();
     factories();
 
-    std::printf("DONE cases=%ld ops=%ld accepted=%ld rejected=%ld nonconvertible=%ld factory_objects=%ld factory_params=%ld perturbed=%ld fails=%ld\n", g_cases, g_ops,
-                g_accept, g_reject, g_ub, g_fact_objs, g_fact_params, g_fact_perturbed, g_fail);
+    std::printf("DONE cases=%ld ops=%ld accepted=%ld rejected=%ld nonconvertible=%ld factory_objects=%ld factory_params=%ld perturbed=%ld cloned=%ld fails=%ld\n", g_cases, g_ops,
+                g_accept, g_reject, g_ub, g_fact_objs, g_fact_params, g_fact_perturbed, g_cloned_lines, g_fail);
     return 0;
 }
